@@ -226,7 +226,7 @@ class RealRouter:
         return {'k': 'ok', 'h': meth.handler.hid, 'route': s2l(meth.route.pattern), 'params': [[n, val_text(v)] for n, v in sorted(params.items())],
                 'hooks': [[pos, self.proj.hook_pat.get(id(hk[0]), [-1])] for pos, hk in hooks if hk and hk[0] is not None]}
 
-    def call(self, path, verb):
+    def call(self, path, verb, accept=None):
         """End to end through Ombott.__call__: (status, Allow header, handler id, kwargs, hooks fired)."""
         from harness.checks.bodylib import base_environ, call_app
         from urllib.parse import quote
@@ -234,6 +234,8 @@ class RealRouter:
         del self.fired[:]
         p = '/' + l2s(path)
         env = base_environ(REQUEST_METHOD=verb, PATH_INFO=p.encode('utf8').decode('latin1'))
+        if accept:
+            env['HTTP_ACCEPT'] = accept        # the representation of the error page must not change status or Allow
         status, line, headers, body, nsr = call_app(self.app, env)
         allow = [v for k, v in headers if k == 'Allow']
         return {'status': status, 'allow': allow[0] if allow else None, 'h': self.got.get('h'),
